@@ -17,6 +17,7 @@ else:
     if parse_version(gevent.__version__) < parse_version('1.4'):
         raise RuntimeError("gevent worker requires gevent 1.4 or higher")
 
+from gevent.event import Event
 from gevent.pool import Pool
 from gevent.server import StreamServer
 from gevent import hub, monkey, socket, pywsgi
@@ -54,7 +55,8 @@ class GeventWorker(AsyncWorker):
         return gevent.Timeout(self.cfg.keepalive, False)
 
     def run(self):
-        servers = []
+        servers = self.servers = []
+        wake = self._wake = Event()
         ssl_args = {}
 
         if self.cfg.is_ssl:
@@ -87,7 +89,7 @@ class GeventWorker(AsyncWorker):
 
         while self.alive:
             self.notify()
-            gevent.sleep(wait)
+            wake.wait(wait)
 
         try:
             # Stop accepting requests
@@ -100,17 +102,16 @@ class GeventWorker(AsyncWorker):
             # Handle current requests until graceful_timeout
             ts = time.time()
             while time.time() - ts <= self.cfg.graceful_timeout:
-                accepting = 0
-                for server in servers:
-                    if server.pool.free_count() != server.pool.size:
-                        accepting += 1
+                busy = [server.pool for server in servers
+                        if server.pool.free_count() != server.pool.size]
 
-                # if no server is accepting a connection, we can exit
-                if not accepting:
+                # if no server is handling a connection, we can exit
+                if not busy:
                     return
 
                 self.notify()
-                gevent.sleep(wait)
+                # (wake up as soon as they are done, not a heartbeat later)
+                busy[0].join(timeout=wait)
 
             # Force kill all active the handlers
             self.log.warning("Worker graceful timeout (pid:%s)", self.pid)
@@ -118,6 +119,13 @@ class GeventWorker(AsyncWorker):
                 server.stop(timeout=1)
         except Exception:
             pass
+
+    def stop_accepting(self):
+        for server in self.servers:
+            if hasattr(server, 'stop_accepting'):
+                server.stop_accepting()
+        # and let run() retire the worker now rather than a heartbeat later
+        self._wake.set()
 
     def handle(self, listener, client, addr):
         # Connected socket timeout defaults to socket.getdefaulttimeout().
